@@ -11,20 +11,35 @@ META = dict(
     ],
     assumptions=[
         'belt block cipher = uninterpreted function (stubs/belt_block_uf_e.c or belt_block_uf.c), bash-f = uninterpreted function (stubs/bashf_uf.c), beltPolyMul = uninterpreted function (harness/C09/polymul_uf.c)',
-        'memIsDisjoint2 modelled object-aware (harness/C09/disjoint_model.c): buffers in different objects are disjoint, inside one object the real interval test decides', 'REL profile (NDEBUG); blob.c real with exact-size blobs (BEE2_VERIF_BLOB_EXACT)',
+        'memIsDisjoint2 modelled object-aware (harness/C09/mem_model.c): buffers in different objects are disjoint, inside one object the real interval test decides', 'REL profile (NDEBUG); blob.c real with exact-size blobs (BEE2_VERIF_BLOB_EXACT)',
         'argument table transcribed from the \\expect{ERR_...} lines of belt.h, bash.h, botp.h, brng.h (bash.h writes ERR_BAD_PARAM, err.h only defines ERR_BAD_PARAMS: taken as ERR_BAD_PARAMS)',
         'FMT argument checks: beltFMT_keep/Start/StepE/StepD replaced by stubs that assert their documented \\pre lines (harness/C09/fmt_pre.c); counterexamples are replayed on the real belt_fmt.c',
     ],
 )
 
-MEM = ('src/core/mem.c', {'remove': ['memIsDisjoint2']})
-DJ = 'harness/C09/disjoint_model.c'
+MEM = ('src/core/mem.c', {'remove': ['memIsDisjoint2', 'memWipe']})
+DJ = 'harness/C09/mem_model.c'
 CORE = [MEM, 'src/core/util.c', 'src/core/u32.c', 'src/core/u64.c', 'src/core/u16.c', 'src/core/word.c', 'src/core/blob.c']
 B = 'src/crypto/belt/'
 BLOCK = (B + 'belt_block.c', {'remove': ['beltBlockEncr', 'beltBlockEncr2', 'beltBlockEncr3', 'beltBlockDecr', 'beltBlockDecr2', 'beltBlockDecr3']})
 LCL = (B + 'belt_lcl.c', {'remove': ['beltPolyMul', 'beltPolyMul_deep']})
 MODES = [B + f for f in ('belt_ecb.c', 'belt_cbc.c', 'belt_cfb.c', 'belt_ctr.c', 'belt_mac.c', 'belt_dwp.c', 'belt_che.c', 'belt_kwp.c', 'belt_wbl.c',
                          'belt_bde.c', 'belt_sde.c', 'belt_krp.c', 'belt_hmac.c', 'belt_hash.c', 'belt_compr.c', 'belt_pbkdf.c')]
+def ll(path, names): return (path, {'remove': names})
+LL_BELT = [ll(B + 'belt_ecb.c', ['beltECBStart', 'beltECBStepE', 'beltECBStepD']), ll(B + 'belt_cbc.c', ['beltCBCStart', 'beltCBCStepE', 'beltCBCStepD']),
+           ll(B + 'belt_cfb.c', ['beltCFBStart', 'beltCFBStepE', 'beltCFBStepD']), ll(B + 'belt_ctr.c', ['beltCTRStart', 'beltCTRStepE']),
+           ll(B + 'belt_mac.c', ['beltMACStart', 'beltMACStepA', 'beltMACStepG']),
+           ll(B + 'belt_dwp.c', ['beltDWPStart', 'beltDWPStepE', 'beltDWPStepI', 'beltDWPStepA', 'beltDWPStepG', 'beltDWPStepD', 'beltDWPStepV']),
+           ll(B + 'belt_che.c', ['beltCHEStart', 'beltCHEStepE', 'beltCHEStepI', 'beltCHEStepA', 'beltCHEStepG', 'beltCHEStepD', 'beltCHEStepV']),
+           ll(B + 'belt_wbl.c', ['beltWBLStart', 'beltWBLStepE', 'beltWBLStepD', 'beltWBLStepD2']), B + 'belt_kwp.c',
+           ll(B + 'belt_bde.c', ['beltBDEStart', 'beltBDEStepE', 'beltBDEStepD']), ll(B + 'belt_sde.c', ['beltSDEStart', 'beltSDEStepE', 'beltSDEStepD']),
+           ll(B + 'belt_krp.c', ['beltKRPStart', 'beltKRPStepG']), ll(B + 'belt_hmac.c', ['beltHMACStart', 'beltHMACStepA', 'beltHMACStepG']), B + 'belt_pbkdf.c',
+           B + 'belt_compr.c', LCL]
+LL_BASH = [ll('src/crypto/bash/bash_hash.c', ['bashHashStart', 'bashHashStepH', 'bashHashStepG'])]
+LL_BOTP = [ll('src/crypto/botp.c', ['botpHOTPStart', 'botpHOTPStepS', 'botpHOTPStepR', 'botpHOTPStepV', 'botpTOTPStart', 'botpTOTPStepR', 'botpTOTPStepV']),
+           ll(B + 'belt_hmac.c', ['beltHMACStart', 'beltHMACStepA', 'beltHMACStepG']), B + 'belt_compr.c', LCL, 'src/core/dec.c', 'src/core/str.c', 'src/core/tm.c']
+LL_BRNG = [ll('src/crypto/brng.c', ['brngHMACStart', 'brngHMACStepR']), ll(B + 'belt_hmac.c', ['beltHMACStart', 'beltHMACStepA', 'beltHMACStepG']), B + 'belt_compr.c', LCL]
+LLS = ['harness/C09/lowlevel_count.c', DJ]
 FMT_PRE = (B + 'belt_fmt.c', {'remove': ['beltFMT_keep', 'beltFMTStart', 'beltFMTStepE', 'beltFMTStepD']})
 BELT = CORE + ['src/math/ww.c', LCL, BLOCK] + MODES
 UF = ['stubs/belt_block_uf.c', 'harness/C09/polymul_uf.c', DJ]
@@ -50,10 +65,10 @@ def args_ob(name, cases, srcs, stub_files, defs, funcs, stubs, bound, **kw):
 def obligations(tier):
     obs = []
     A = 'all values of the argument under test OUTSIDE its documented domain (full width), other scalars symbolic inside theirs (data lengths <= 48), all data/keys symbolic; '
-    obs.append(args_ob('c09_args_belt', ARGS_BELT, BELT, UF, ['KC_BLOCK'],
+    obs.append(args_ob('c09_args_belt', ARGS_BELT, CORE + LL_BELT, LLS + ['harness/C09/polymul_uf.c'], ['KC_LL'],
                        ['beltECBEncr', 'beltECBDecr', 'beltCBCEncr', 'beltCBCDecr', 'beltCFBEncr', 'beltCFBDecr', 'beltCTR', 'beltMAC', 'beltDWPWrap', 'beltDWPUnwrap',
                         'beltCHEWrap', 'beltCHEUnwrap', 'beltKWPWrap', 'beltKWPUnwrap', 'beltBDEEncr', 'beltBDEDecr', 'beltSDEEncr', 'beltSDEDecr', 'beltKRP', 'beltPBKDF2'],
-                       ['belt_block_uf', 'polymul_uf'], A + '%d (function, condition) pairs' % len(ARGS_BELT)))
+                       ['lowlevel_count (every low-level Start/Step function = call counter)'], A + '%d (function, condition) pairs' % len(ARGS_BELT)))
     obs.append(args_ob('c09_args_fmt', ARGS_FMT, CORE + [FMT_PRE], ['harness/C09/fmt_pre.c', DJ], ['KC_PRE'], ['beltFMTEncr', 'beltFMTDecr'], ['fmt_pre (low-level FMT = asserted \\pre lines)'],
                        A + 'count < 2, len, count > 600 (ERR_NOT_IMPLEMENTED), iv inside dest'))
     # the suspected defect: mod is never checked. One obligation per (function, side) so that each finding has its own verdict line
@@ -62,10 +77,25 @@ def obligations(tier):
             obs.append(args_ob('c09_args_fmt%s_%s' % (fn, side.lower()), ['FMT_%s_%s' % (fn, side)], CORE + [FMT_PRE], ['harness/C09/fmt_pre.c', DJ], ['KC_PRE'],
                                ['beltFMT%scr' % ('En' if fn == 'E' else 'De')], ['fmt_pre (low-level FMT = asserted \\pre lines)'],
                                txt + ', count 2..24, len in {16,24,32}, data symbolic', replay='asan'))
-    obs.append(args_ob('c09_args_bash', ['BASH_L'], CORE + BASH, ['stubs/bashf_uf.c', DJ], ['KC_BASH'], ['bashHash'], ['bashf_uf'], A + 'l == 0 || l % 16 != 0 || l > 256'))
-    obs.append(args_ob('c09_args_botp', ARGS_BOTP, BELT + BOTP, UFE, ['KC_BLOCK'], ['botpHOTPRand', 'botpHOTPVerify', 'botpTOTPRand', 'botpTOTPVerify'],
-                       ['belt_block_uf_e'], A + 'digit outside 6..8 (Rand: argument, Verify: strLen(otp) for all strings of <= 11 characters), t == TIME_ERR', unwind=14))
+    obs.append(args_ob('c09_args_bash', ['BASH_L'], CORE + LL_BASH, LLS, ['KC_LL'], ['bashHash'], ['lowlevel_count'], A + 'l == 0 || l % 16 != 0 || l > 256'))
+    obs.append(args_ob('c09_args_botp', ARGS_BOTP, CORE + LL_BOTP, LLS, ['KC_LL'], ['botpHOTPRand', 'botpHOTPVerify', 'botpTOTPRand', 'botpTOTPVerify'],
+                       ['lowlevel_count'], A + 'digit outside 6..8 (Rand: argument, Verify: strLen(otp) for all strings of <= 11 characters), t == TIME_ERR', unwind=14))
     # documented buffer-disjointness conditions
-    obs.append(args_ob('c09_args_brngHMAC_overlap', ['BRNG_HMAC_OVL'], BELT + BRNG, UFE, ['KC_BLOCK'], ['brngHMACRand'], ['belt_block_uf_e'],
+    obs.append(args_ob('c09_args_brngHMAC_overlap', ['BRNG_HMAC_OVL'], CORE + LL_BRNG, LLS, ['KC_LL'], ['brngHMACRand'], ['lowlevel_count'],
                        'iv (16 octets) starting at every offset inside buf (32 octets)'))
+    for fn, case in (('beltDWPWrap', 'DWP_W_OVL'), ('beltCHEWrap', 'CHE_W_OVL')):
+        obs.append(args_ob('c09_args_%s_overlap' % fn, [case], CORE + LL_BELT, LLS + ['harness/C09/polymul_uf.c'], ['KC_LL'], [fn], ['lowlevel_count'],
+                           'mac (8 octets) starting at every offset inside dest (count1 = 16), len in {16,24,32}, data symbolic'))
+    # ---- (2) verify-before-release
+    W = BELT
+    def unwrap(name, which, fn, tuples, timeout=200):
+        inst = [('u_%d_%d_%d_%d' % t, '%s, %d, %d, %d, %d' % ((which,) + t)) for t in tuples]
+        return Ob(name='c09_unwrap_' + name, harness='harness/C09/unwrap.c', instances=inst, srcs=W, stub_files=UFE, blob_exact=True,
+                  unwind=70, unwind_rules=[(r'^belt\w+Step\w*\.\d+$', 8)], timeout=timeout, mem_gb=6, cbmc_extra=FS, funcs=[fn], stubs=['belt_block_uf_e', 'polymul_uf', 'mem_model'],
+                  bound='concrete (count1, count2, len, in-place?) tuples %s; data, mac/header, key, iv symbolic' % (tuples,))
+    aead = [(c1, c2, l, a) for c1 in (1, 16, 17, 33) for c2 in (0, 7, 16) for l in (16, 32) for a in (0, 1) if (c1, c2) in ((1, 0), (16, 7), (17, 16), (33, 0)) and (l == 32 or c1 == 16)]
+    obs.append(unwrap('beltDWPUnwrap', 'DWP', 'beltDWPUnwrap', aead))
+    obs.append(unwrap('beltCHEUnwrap', 'CHE', 'beltCHEUnwrap', aead))
+    kwp = [(c, 0, l, a) for c in (32, 33, 48) for l in (16, 24, 32) for a in (0, 1) if l == 32 or c == 32]
+    obs.append(unwrap('beltKWPUnwrap', 'KWP', 'beltKWPUnwrap', kwp))
     return obs
